@@ -18,11 +18,14 @@
    is being deleted (Coh_proofs.v): informer coherence -- replaying the pending node notifications onto the node store
    yields exactly the API objects -- is an invariant of every such history, so delivering the pending notifications makes
    the world quiet, and the rounds converge from there.
-   Not proved: real queue order -- fairness is represented by the round schedule, the rate limiter by Tick; node relists
-   (they permute the store); nodes being deleted; the ClusterCIDR-deletion half as a measure (its step is proved);
-   fairness and timing of the real rate limiter are represented only by Tick.
+   Node relists permute the store; coherence UP TO ORDER (CohP_proofs.v: the store has one object per name and replaying the
+   pending notifications onto it yields exactly the views of the API objects, as a set) is an invariant of EVERY history, so
+   the convergence theorem holds from the world reached by any history of well-formed operations whatever
+   (C11_convergence_in_any_history).  The ClusterCIDR-deletion half is a one-round measure (ConvCC_proofs.v, below).
+   Not proved: real queue order -- fairness is represented by the round schedule, the rate limiter by Tick; nodes being
+   deleted.
    Recorded residue: K-AMB. *)
-From NIPAM Require Import Sys Alloc_proofs Sys_proofs Inv_proofs World_proofs Complete_proofs Path_proofs NoPanic_proofs Progress_proofs Conv_proofs Coh_proofs Term_proofs Default_proofs ConvCC_proofs.
+From NIPAM Require Import Sys Alloc_proofs Sys_proofs Inv_proofs World_proofs Complete_proofs Path_proofs NoPanic_proofs Progress_proofs Store_proofs Conv_proofs Coh_proofs CohP_proofs Term_proofs Default_proofs ConvCC_proofs.
 From Coq Require Import Lia.
 Open Scope N_scope.
 
@@ -119,7 +122,7 @@ Proof.
   - eexists. vm_compute. reflexivity.
   - vm_compute. reflexivity.
   - vm_compute. reflexivity.
-  - vm_compute. reflexivity.
+  - apply Store_proofs.seq_of_eq; [vm_compute; reflexivity|]. unfold Store_proofs.nd. vm_compute. repeat constructor; cbn; intuition discriminate.
   - vm_compute. repeat constructor; cbn; intuition discriminate.
   - intros a Ha. vm_compute in Ha. destruct Ha as [<-|[<-|[<-|[]]]]; reflexivity.
 Qed.
@@ -215,3 +218,25 @@ Proof.
   - vm_compute. reflexivity.
   - vm_compute. reflexivity.
 Qed.
+
+(* ---------- convergence from the world reached by ANY history ---------- *)
+(* informer coherence up to order is an invariant of every history, node relists included *)
+Theorem C11_informer_coherence_up_to_order_in_every_history :
+  forall po lab ops,
+  let w := run po lab init_world ops in
+  NoDup (map an_name (w_nodes w)) /\ NoDup (map n_name (w_ncache w)) /\
+  (w_synced w = true -> forall y, In y (replay_n (w_ncache w) (w_nfeed w)) <-> In y (map node_view (w_nodes w))).
+Proof.
+  intros po lab ops w. pose proof (run_cohp po lab ops init_world cohp_init) as C.
+  split; [exact (cq_names _ C)|]. split; [exact (cq_store _ C)|]. intros Hs. exact (proj2 (proj2 (cq_sync _ C Hs))).
+Qed.
+Print Assumptions C11_informer_coherence_up_to_order_in_every_history.
+
+Theorem C11_convergence_in_any_history :
+  forall po lab ops, Forall wf_op ops ->
+  let w := run po lab init_world ops in
+  w_synced w = true -> (exists m, w_ctl w = Some m) -> (forall a, In a (w_nodes w) -> an_deleting a = false) ->
+  exists k, (k <= S (length (unserved_nodes (drain po lab w))))%nat /\
+            settled po lab (Nat.iter k (round po lab) (drain po lab w)).
+Proof. exact converge_in_any_history. Qed.
+Print Assumptions C11_convergence_in_any_history.
